@@ -49,6 +49,24 @@ theorem O_mapE_comp {β γ δ : Type} (k1 : β → Except IErr γ) (k2 : β → 
         simp only [O_ok, Option.map_some, Option.bind_some, O_mapE_cons]
         try (cases f z <;> simp)
 
+/-- the same, with the factorisation required on the elements of the list only -/
+theorem O_mapE_comp_mem {β γ δ : Type} (k1 : β → Except IErr γ) (k2 : β → Except IErr δ) (f : δ → Except IErr γ)
+    (l : List β) (h : ∀ a ∈ l, O (k1 a) = O (k2 a >>= f)) :
+    O (mapE k1 l) = O (mapE k2 l >>= mapE f) := by
+  induction l with
+  | nil => rfl
+  | cons a l ih =>
+    rw [O_mapE_cons, h a (by simp), ih (fun b hb => h b (by simp [hb])), O_bind, O_bind, O_bind, O_mapE_cons]
+    cases hk : k2 a with
+    | error e => simp
+    | ok z =>
+      simp only [O_ok, Option.bind_some]
+      cases hl : mapE k2 l with
+      | error e => cases f z <;> simp
+      | ok zs =>
+        simp only [O_ok, Option.map_some, Option.bind_some, O_mapE_cons]
+        try (cases f z <;> simp)
+
 theorem mapE_ok_cons {β γ : Type} (f : β → Except IErr γ) (a : β) (l : List β) (xs : List γ) (h : mapE f (a :: l) = .ok xs) :
     ∃ y ys, f a = .ok y ∧ mapE f l = .ok ys ∧ xs = y :: ys := by
   simp only [mapE] at h
